@@ -80,7 +80,7 @@ def singles(spec):
 class Sim:
     """one simulation of `spec` through the real simulator + array views of the result"""
 
-    def __init__(self, spec, m, inputs, dev, n_periods, start=START, base_db=None, split=False):
+    def __init__(self, spec, m, inputs, dev, n_periods, start=START, base_db=None, split=False, sim_kw=None):
         self.spec, self.dev = spec, dev
         self.span = start >> (start + n_periods - 1)
         self.L = spec.max_lag()
@@ -98,7 +98,7 @@ class Sim:
                 db[spec.var(i)][p] = old * np.exp(amp) if spec.log else old + amp
         self.db_in = db
         with contextlib.redirect_stdout(io.StringIO()):
-            self.out = m.simulate(db, self.span, method="first_order", deviation=dev, **({"force_split_frames": True} if split else {}))
+            self.out = m.simulate(db, self.span, method="first_order", deviation=dev, **({"force_split_frames": True} if split else {}), **(sim_kw or {}))
         self.arr = {}
         self.arr_in = {}
         fu = (start - self.L, start + n_periods - 1)
@@ -370,6 +370,33 @@ def check_model(spec, res, ctx, only=None):
                     % (dev, n_, np.nanmax(np.abs(many.arr[n_] - one.arr[n_]))), input=[list(x) for x in comp2], mode=dev, input_kind="split_frames")
                 break
 
+    # (c3) options that only shape the returned databox must not change the simulated path
+    for dev in (True, False):
+        comp3 = tuple(S)
+        ref3 = guard("options", comp3, dev, lambda: run(comp3, dev))
+        if ref3 is None:
+            continue
+        for label, kw in (("prepend_input=False", {"prepend_input": False}), ("remove_initial=False", {"remove_initial": False}),
+                          ("remove_terminal=False", {"remove_terminal": False}), ("num_variants=1", {"num_variants": 1}),
+                          ("target_db", "target_db")):
+            def with_option():
+                if kw == "target_db":
+                    return run(comp3, dev, sim_kw={"target_db": ir.Databox()})
+                return run(comp3, dev, sim_kw=kw)
+            alt = guard("options", comp3, dev, with_option)
+            if alt is None:
+                continue
+            res.nt((name, "options", label, dev))
+            res.count("option_runs")
+            for n_ in ref3.names():
+                if n_[0] not in "vo":
+                    continue
+                a, b = alt.arr[n_][alt.L:], ref3.arr[n_][ref3.L:]
+                if not np.allclose(a, b, rtol=1e-12, atol=1e-12, equal_nan=True):
+                    bad("options", "%s dev=%s: %s on the simulated span differs from the default call by %.3e"
+                        % (label, dev, n_, np.nanmax(np.abs(a - b))), input=[list(x) for x in comp3], mode=dev, input_kind="options")
+                    break
+
     # (d) non-explosive: composite input over a long horizon, deviation mode
     comp = tuple(S)
     long_ = guard("long", comp, True, lambda: run(comp, True, n=T_SHOCK + H_LONG))
@@ -494,7 +521,8 @@ def run(ctx, total, info):
                       "indeterminate": (c.get("oracle_indeterminate", 0), 15), "no_stable": (c.get("oracle_no_stable", 0), 30),
                       "distinct_cases": (len(total.nontrivial), 8000),
                       "unit_root_models": (c.get("models_with_unit_roots", 0), 5), "variant_runs": (c.get("variant_runs", 0), 300),
-                      "split_frame_runs": (c.get("split_frame_runs", 0), 500)}
+                      "split_frame_runs": (c.get("split_frame_runs", 0), 500),
+                      "option_runs": (c.get("option_runs", 0), 1500)}
 
 
 def replay(case):
